@@ -15,8 +15,8 @@ RULE = ('Cases = (performance curve x 5 metrics x 2 distances x boundary-aware t
         'the segment is rejected and some retained s in (l, r) is a farthest interior point up to rounding '
         'noise 64*eps*scale with explain(l, s) and explain(s, r).  Non-trivial: >= 1 split and >= 1 accepted '
         'segment with interior points.  Distinct by digest of the case.')
-ASSUMPTIONS = ['cost primitive rdp.compute_cost_coef(pt, lf.linear_fit_points(pt), metric) and the distance '
-               'primitives are validated independently by C16/C17']
+ASSUMPTIONS = ['cost primitive = linear_fit.<metric>_points(pt, lf.linear_fit_points(pt)) and the distance '
+               'primitives are validated independently by C16/C17; rdp.compute_cost_coef must agree bit-for-bit']
 
 
 @st.composite
@@ -25,6 +25,13 @@ def cases(draw, tier):
     metric = draw(st.sampled_from(S.METRICS))
     return {'family': c['family'], 'pts': c['pts'], 'metric': metric,
             'distance': draw(st.sampled_from(S.DISTANCES)), 't': draw(S.thresholds(c['pts'], metric))}
+
+
+# the endpoint-line cost of a segment, from the linear-fit wrappers that C16 checks against the
+# textbook definitions (not through rdp.compute_cost_coef, whose dispatch is itself under test)
+WRAPPERS = {'r2': lambda L: L.lf.linear_r2_points, 'rmspe': lambda L: L.lf.rmspe_points,
+            'rmsle': lambda L: L.lf.rmsle_points, 'smape': lambda L: L.lf.smape_points,
+            'rpd': lambda L: L.lf.rpd_points}
 
 
 def dist_fn(name):
@@ -59,7 +66,13 @@ def oracle(case, rec):
                 cost_cache[(l, r)] = 1.0 if metric == 'r2' else 0.0
             else:
                 with np.errstate(all='ignore'):
-                    cost_cache[(l, r)] = float(L.rdp.compute_cost_coef(pt, L.lf.linear_fit_points(pt), M))
+                    coef = L.lf.linear_fit_points(pt)
+                    c = float(WRAPPERS[metric](L)(pt, coef))
+                    via = float(L.rdp.compute_cost_coef(pt, coef, M))
+                if not (c == via or (c != c and via != via)):
+                    rec.fail('cost:compute_cost_coef-differs-from-endpoint-line-%s' % metric,
+                             'segment [%d,%d]: compute_cost_coef=%r, linear_fit wrapper=%r' % (l, r, via, c))
+                cost_cache[(l, r)] = c
         return cost_cache[(l, r)]
 
     why = []
